@@ -28,6 +28,20 @@ Proof.
   split; [exact H1|split; [exact H2|discriminate]].
 Qed.
 
+(* A table name over time.  After ANY history of create / drop / write / read / loss of schema-cache entries on one
+   table name, a representable value of the CURRENT table's column type written now is read back as itself: the
+   schema cache never makes the read (or the write) side coerce with the column type of an earlier table of that name. *)
+Theorem C18_current_schema :
+  forall h t v, actual (trun true h) = Some t -> representable t v ->
+    snd (tstep true (fst (tstep true (trun true h) (TWrite v))) TRead) = Some (Ok v).
+Proof. exact write_read_current. Qed.
+
+(* If create / drop evicted only the write handlers' cache entry, the read side would keep the old table's type. *)
+Theorem C18_stale_schema_refuted :
+  exists h t v, actual (trun false h) = Some t /\ representable t v /\
+    snd (tstep false (fst (tstep false (trun false h) (TWrite v))) TRead) <> Some (Ok v).
+Proof. exists stale_history, TStr, (VStr [48; 48; 55]%N). exact stale_refuted. Qed.
+
 (* non-vacuity *)
 Example C18_ex_repr :
   representable TInt (VInt (-9007199254740992)) /\ representable TStr (VStr [39; 34; 0; 9731; 119070]%N) /\
@@ -36,3 +50,7 @@ Proof. cbn. unfold two53. repeat split; lia. Qed.
 Example C18_ex_f64 : map f64 [9007199254740993; 9007199254740995; -9007199254740993; 9223372036854775807; 18014398509481987]
                      = [9007199254740992; 9007199254740996; -9007199254740992; 9223372036854775808; 18014398509481988].
 Proof. vm_compute. reflexivity. Qed.
+Example C18_ex_chain :
+  chain_reads true tinit None [TCreate TInt; TWrite (VInt 7); TRead; TDrop; TCreate TStr; TWrite (VStr [48; 48; 55]%N); TRead] = [1; 1]
+  /\ chain_reads false tinit None [TCreate TInt; TWrite (VInt 7); TRead; TDrop; TCreate TStr; TWrite (VStr [48; 48; 55]%N); TRead] = [1; 0].
+Proof. vm_compute. split; reflexivity. Qed.
